@@ -318,7 +318,7 @@ class BuiltinsMixin(object):
             if x.kind == "int":
                 return x
             if x.kind == "bool":
-                return to_int(x)
+                return 1 if self.E.decide(x) else 0     # int(bool): decided per path, so flags stay concrete
             # truncation toward zero, as a fresh integer with linear bounds (no ToInt term)
             t = self.E.fresh_int("trunc")
             tr = z3.ToReal(t.t)
